@@ -225,14 +225,16 @@ func (b *Block) EncodePrimitiveBlock(dmg Damage) []byte {
 	oobIdx := uint64(len(st.list)) + uint64(dmg.Arg)
 
 	var fs []field
-	// string table
-	fs = append(fs, field{func(e *enc) {
-		var t enc
-		for _, s := range st.list {
-			t.str(1, s)
-		}
-		e.bytes(1, t.b)
-	}})
+	// string table (a required field: leaving it out makes every string reference dangle)
+	if dmg.Kind != "missing-stringtable" {
+		fs = append(fs, field{func(e *enc) {
+			var t enc
+			for _, s := range st.list {
+				t.str(1, s)
+			}
+			e.bytes(1, t.b)
+		}})
+	}
 	if b.Granularity != nil {
 		fs = append(fs, field{func(e *enc) { e.varint(17, uint64(int64(*b.Granularity))) }})
 	}
